@@ -1902,7 +1902,7 @@ func (a *Agent) TaskPrepare(Command int, Info any, Message *map[string]string, C
 						/* check if the connection is still up */
 						if client := a.SocksClientGet(SocketId); client != nil {
 
-							if !client.Connected {
+							if _, Connected := a.SocksClientState(client); !Connected {
 								/* if we are still not connected then skip */
 								continue
 							}
@@ -5954,8 +5954,15 @@ func (a *Agent) TaskDispatch(RequestID uint32, CommandID uint32, Parser *parser.
 								/* check if there is a socket with that socks proxy id */
 								if Socket := a.SocksClientGet(SocktID); Socket != nil {
 
+									/* the connection may have been closed since we looked the socket up */
+									Conn, _ := a.SocksClientState(Socket)
+									if Conn == nil {
+										logger.Error(fmt.Sprintf("SocketID already closed: %08x\n", SocktID))
+										break
+									}
+
 									/* write the data to socks proxy */
-									_, err := Socket.Conn.Write(Data)
+									_, err := Conn.Write(Data)
 									if err != nil {
 										a.Console(teamserver.AgentConsole, "Erro", fmt.Sprintf("Failed to write to socks proxy %v: %v", SocktID, err), "")
 
@@ -6053,15 +6060,22 @@ func (a *Agent) TaskDispatch(RequestID uint32, CommandID uint32, Parser *parser.
 
 					if Client := a.SocksClientGet(SocketId); Client != nil {
 
+						/* the connection may have been closed since we looked the socket up */
+						Conn, _ := a.SocksClientState(Client)
+						if Conn == nil {
+							logger.Debug(fmt.Sprintf("Agent: %x, Command: COMMAND_SOCKET - SOCKET_COMMAND_CONNECT, Socket already closed: %x", AgentID, SocketId))
+							break
+						}
+
 						if Success == win32.TRUE {
 							// succeeded
 
 							// avoid too much spam
 							//logger.Debug(fmt.Sprintf("Agent: %x, Command: COMMAND_SOCKET - SOCKET_COMMAND_CONNECT, Id: %08x, Type: %d, Success: %d", AgentID, SocketId, SOCKET_TYPE_REVERSE_PROXY, Success))
 
-							err := socks.SendConnectSuccess(Client.Conn, Client.ATYP, Client.IpDomain, Client.Port)
+							err := socks.SendConnectSuccess(Conn, Client.ATYP, Client.IpDomain, Client.Port)
 							if err == nil {
-								Client.Connected = true
+								a.SocksClientSetConnected(Client)
 							} else {
 								/* the client went away while the agent was connecting:
 								 * remove the socket and tell the agent to close its end */
@@ -6079,7 +6093,7 @@ func (a *Agent) TaskDispatch(RequestID uint32, CommandID uint32, Parser *parser.
 						} else {
 							logger.Debug(fmt.Sprintf("Agent: %x, Command: COMMAND_SOCKET - SOCKET_COMMAND_CONNECT, Id: %08x, Type: %d, Success: %d, ErrorCode: %d", AgentID, SocketId, SOCKET_TYPE_REVERSE_PROXY, Success, ErrorCode))
 
-							socks.SendConnectFailure(Client.Conn, uint32(ErrorCode), Client.ATYP, Client.IpDomain, Client.Port)
+							socks.SendConnectFailure(Conn, uint32(ErrorCode), Client.ATYP, Client.IpDomain, Client.Port)
 
 							a.SocksClientClose(int32(SocketId))
 						}
